@@ -41,6 +41,14 @@ int main()
         expect( "bounded over capacity", { ev(1,Q_ENQ,1,0,1,0,1,2), ev(1,Q_ENQ,2,0,1,0,3,4) }, b, false );
         expect( "front ok", { ev(1,Q_ENQ,1,0,1,0,1,2), ev(2,Q_FRONT,0,0,1,0,3,4), ev(2,Q_DEQ,0,0,1,0,5,6) }, b, true );
     }
+    // regression: a linearizable 21-event history that a weak memo hash once rejected (two different
+    // (linearised set, queue) pairs collided); found by the thorough tier on OptimisticQueue
+    expect( "fifo 21 events, long overlapping enqueues", {
+        ev(0,Q_ENQ,1,0,1,0,1,2), ev(0,Q_ENQ,2,0,1,0,3,4), ev(3,Q_ENQ,303,0,1,0,5,26), ev(2,Q_ENQ,204,0,1,0,6,25), ev(1,Q_ENQ,105,0,1,0,7,14),
+        ev(4,Q_ENQ,406,0,1,0,8,9), ev(4,Q_ENQ,407,0,1,0,10,11), ev(4,Q_ENQ,408,0,1,0,12,13), ev(1,Q_DEQ,0,0,1,0,15,16), ev(1,Q_DEQ,0,0,2,0,17,18),
+        ev(1,Q_ENQ,109,0,1,0,19,20), ev(1,Q_DEQ,0,0,105,0,21,22), ev(1,Q_ENQ,110,0,1,0,23,24), ev(0,Q_DEQ,0,0,406,0,27,28), ev(0,Q_DEQ,0,0,407,0,29,30),
+        ev(0,Q_DEQ,0,0,408,0,31,32), ev(0,Q_DEQ,0,0,109,0,33,34), ev(0,Q_DEQ,0,0,110,0,35,36), ev(0,Q_DEQ,0,0,204,0,37,38), ev(0,Q_DEQ,0,0,303,0,39,40),
+        ev(0,Q_DEQ,0,0,-1,0,41,42) }, FifoModel(), true );
     // LIFO
     expect( "lifo ok", { ev(1,Q_ENQ,1,0,1,0,1,2), ev(1,Q_ENQ,2,0,1,0,3,4), ev(2,Q_DEQ,0,0,2,0,5,6), ev(2,Q_DEQ,0,0,1,0,7,8) }, LifoModel(), true );
     expect( "lifo fifo order", { ev(1,Q_ENQ,1,0,1,0,1,2), ev(1,Q_ENQ,2,0,1,0,3,4), ev(2,Q_DEQ,0,0,1,0,5,6) }, LifoModel(), false );
